@@ -15,8 +15,8 @@ cd /verif
 export VERIF_EVIDENCE_DIR=/verif/build/mutant-evidence
 for id in "$@"; do
   ./check "$id" "${TIER:-quick}" > /tmp/mutant.$$.out 2>&1; rc=$?
-  echo "== $(basename $P) $id rc=$rc  $(grep -c '^VIOLATION' /tmp/mutant.$$.out) violation lines"
-  grep -A1 '^VIOLATION' /tmp/mutant.$$.out | grep -v '^--' | head -${SHOW:-4}
-  grep 'MACHINERY' /tmp/mutant.$$.out | head -3
+  echo "== $(basename $P) $id rc=$rc  $(grep -a -c '^VIOLATION' /tmp/mutant.$$.out) violation lines"
+  grep -a -A1 '^VIOLATION' /tmp/mutant.$$.out | grep -a -v '^--' | head -${SHOW:-4}
+  grep -a 'MACHINERY\|HARNESS-PANIC' /tmp/mutant.$$.out | head -3
 done
 rm -f /tmp/mutant.$$.out
